@@ -64,6 +64,9 @@ def run(ctx, replay):
     if len(events) != len(rows):
         raise vlib.Infra("harness answered %d of %d rows" % (len(events), len(rows)))
     ev_by_t = {e["t"]: e for e in events}
+    for e in events:
+        if e["out"].get("infra"):
+            raise vlib.Infra("row %d: %s" % (e["t"], e["out"]["infra"]))
 
     # binding self-test: forged outputs must be rejected by TLC
     selftest = {}
